@@ -413,7 +413,7 @@ pub fn run(tier: Tier) -> i32 {
     let mut streams: Vec<(String, Vec<u8>)> = Vec::new();
     for (n, big) in [(1usize, false), (5, false), (12, true), (100, false), (101, false), (201, false), (1000, false), (70_000, false)] {
         // 1000 packets: every counter beyond 255; 70 000 (thorough): counters beyond 65 535
-        if !tier.is_thorough() && (n == 201 || n == 70_000) {
+        if !tier.is_thorough() && n == 70_000 {
             continue;
         }
         let pattern: Vec<u8> = (0..n).map(|i| ((i * 5 + i / 4) % 3) as u8).collect();
@@ -428,6 +428,20 @@ pub fn run(tier: Tier) -> i32 {
             p.rdh.stop_bit &= 1;
         }
         streams.push((format!("arbitrary headers x{n}{}", if big { " big payloads" } else { "" }), stream::to_bytes(&pk)));
+        // the same stream with packets of another (valid) detector mixed in - every third packet, among them packets
+        // that open a reader batch: the run's detector is the one of the first RDH, for the whole run
+        if n == 201 || n == 1000 {
+            for (i, p) in pk.iter_mut().enumerate() {
+                if i % 3 == 1 {
+                    p.rdh.system_id = 36;
+                }
+                // staves that occur only in the second / a later reader batch (which opens with such a packet)
+                if (150..160).contains(&i) || (i >= 400 && i % 97 == 0) {
+                    p.rdh.fee_id = fp_model::rdh::Rdh::its_fee_id(6, 20 + (i % 20) as u8, 0);
+                }
+            }
+            streams.push((format!("arbitrary headers x{n}, every third packet of system id 36"), stream::to_bytes(&pk)));
+        }
     }
     for (name, bytes) in &streams {
         let (walked, _) = stream::walk(bytes);
